@@ -99,6 +99,7 @@ func emit(run *vh.Run, h appdrv.History, tag string) ([]appdrv.Resp, string) {
 		}
 	}
 	run.Dist[tag]++
+	appdrv.TxStats(h, rs, run.Dist)
 	run.AddCase(id, appdrv.CaseCoq(id, h, rs, a), injected{History: h, At: -1}, fmt.Sprint(h.Calls), ok0 >= 3)
 	return rs, appdrv.StateString(a, nil)
 }
@@ -234,6 +235,15 @@ func main() {
 			h.Calls = append(h.Calls, appdrv.Call{Kind: "end", Height: b}, appdrv.Call{Kind: "commit"})
 		}
 		emit(run, h, "forced:mempool-limit")
+	}
+	// histories biased towards ACCEPTED messages of a running key generation (commitments,
+	// evaluations, accusations, apologies with values of every width): totality of DeliverTx on
+	// the paths that build events from message contents
+	nd := run.Scale(120, 3000)
+	for i := 0; i < nd; i++ {
+		g := &appdrv.Gen{U: u, R: run.RNG.Fork()}
+		h, _, _ := g.DKGHistory(6+run.RNG.Intn(8), 8)
+		emit(run, h, "history:dkg")
 	}
 	n := run.Scale(150, 4000)
 	for i := 0; i < n; i++ {
